@@ -30,6 +30,8 @@ func c06messages() [][]byte {
 		nasTestpacket.GetSecurityModeComplete(pattern(3, 30)),
 		nasTestpacket.GetConfigurationUpdateComplete(),
 		nasTestpacket.GetStatus5GMM(0x6f),
+		// a bare 5GSM message handed to the same entry point: the security protected message around it is still a 5GMM one (EPD 7e)
+		nasTestpacket.GetPduSessionEstablishmentRequest(5),
 	}
 	// initial NAS messages that carry a NAS message container (TS 24.501 4.4.6): protected like any other message
 	{
